@@ -89,6 +89,9 @@ def sweep(ctx, identity, vs, cs, ms, seedtag):
             ctx.hit("ref_says_complete(harness?)")
             continue
         except refmodel.Short as s:
+            if getattr(s, "m_gt_n", False):
+                ctx.hit("skipped_m_gt_n")
+                continue
             why = str(s)
         except refmodel.DefinitionError:
             return
@@ -123,6 +126,9 @@ def sweep(ctx, identity, vs, cs, ms, seedtag):
                 ctx.hit("bumped_but_complete")
                 continue
             except refmodel.Short as s:
+                if getattr(s, "m_gt_n", False):
+                    ctx.hit("skipped_m_gt_n")
+                    continue
                 why = str(s)
             ok = must_reject(ctx, identity, p, why, dict(base, bump=[f["name"], new]))
             ctx.hit("bumped_checked")
@@ -148,6 +154,9 @@ def garbage(ctx, identity, rng):
         ctx.hit("garbage_complete")
         return
     except refmodel.Short as s:
+        if getattr(s, "m_gt_n", False):
+            ctx.hit("skipped_m_gt_n")
+            return
         why = str(s)
     except refmodel.DefinitionError:
         return
